@@ -944,6 +944,8 @@ func runC03(p *Prog, r *Report) {
 	c03HelperErrorExits(p, r, "D3-omissions")
 	r.Rule("D4-no-shared-line-state", "a record's scratch state is not shared with the next record")
 	c03FreshLineBuffer(p, r, "D4-no-shared-line-state")
+	r.Rule("D5-nested-records", "nested dependency blocks are descended into for every entry that has one")
+	recursesIntoEveryChild(p, r, "D5-nested-records", "extractor/filesystem/language/javascript/packagelockjson", "parseNpmLockDependencies", "Dependencies", "an entry of a package-lock v1 `dependencies` block can be passed over (or the loop left) without its own nested `dependencies` having been parsed: every package installed beneath it is missing from the result")
 	// helper predicates that decide those branches: frozen truth tables
 	r.Rule("D3-predicates", "boolean helpers deciding a branch of a package loop compute the audited function of their atomic tests")
 	npred := 0
